@@ -3655,6 +3655,11 @@ class ControlConnection(object):
         Replace existing connection (if there is one) and close it.
         """
         with self._lock:
+            if self._is_shutdown:
+                # shut down while this connection was being set up
+                log.debug("[control connection] Closing new connection %r: already shut down", conn)
+                conn.close()
+                return
             old = self._connection
             self._connection = conn
 
